@@ -119,4 +119,28 @@ PROPS = {
             "voter sets have < 2^32 members",
         ],
     },
+    "C13": {
+        "title": "Replication flow control and well-formed append/heartbeat messages",
+        "modules": ["top", "prelude", "pb", "inflights", "progress", "quorum", "tracker", "log_unstable", "storage_trait", "raft_log", "raft"],
+        "body": {"P": ["inflights", "progress"], "S": ["inflights", "progress", "raft"]},
+        "modes": ["P", "S"],
+        "claim": "PARTIAL (every per-call clause is decided; 'toward each follower over time' is carried by the representation invariants count <= cap and by the contracts of add/free_to, not by a history proof)",
+        "decided": [
+            "Progress: is_paused = (Probe: paused; Replicate: window full; Snapshot: always); update_state adds exactly one in-flight index "
+            "(Replicate, requires not full) or pauses (Probe); maybe_update / maybe_decr_to / become_* as modelled",
+            "RaftCore::maybe_send_append: paused on entry => returns false, msgs and progress unchanged (none while a snapshot is outstanding, "
+            "none beyond the window, none while a probe is un-acked); a pushed MsgAppend is anchored at (next_idx-1, term of that index in the "
+            "leader's own log), carries exactly limit_prefix(log[next_idx..], max_size_per_msg) (<= max bytes unless a single entry), "
+            "commit == leader commit, term == leader term; non-empty appends are registered in the progress (one more in-flight / probe paused)",
+            "send_heartbeat: commit <= leader commit and <= follower's matched index",
+            "UncommittedState: a proposal is admitted iff no limit, empty payload, nothing outstanding, or it fits; reduce never underflows",
+            "Inflights: count <= capacity always (C18 invariant)",
+        ],
+        "undecided": [
+            "try_batching (iter_mut over &mut [Message]) is an ASSUMED contract; with batch_append on, clauses about the batched message rely on it",
+            "history-level 'at most N unacknowledged toward each follower over time' is not lifted from the per-call contracts",
+        ],
+        "bounded": ["try_batching: K-extracted bounded harness (thorough tier, when built)"],
+        "assumptions": ["C14's RaftLog contracts (proved there)", "RaftCore functions are verified in mode S (fatal!/panic! abort): clauses hold on every normal return"],
+    },
 }
